@@ -548,14 +548,17 @@ func (l *ListType) Unmarshal(reader string) *Statement {
 		jen.Id("size, err := basic.ReadUint32").Call(jen.Id(reader)),
 		jen.If(jen.Id("err != nil")).Block(
 			jen.Return(jen.Id("b"), jen.Qual("fmt", "Errorf").Call(jen.Id(`"read slice size: %s", err`)))),
-		jen.Id("b").Op("=").Id("make").Call(l.TypeName(), jen.Id("size")),
+		// the size comes from the wire: the slice grows with the
+		// elements actually read instead of being allocated upfront.
+		jen.Id("b").Op("=").Id("make").Call(l.TypeName(), jen.Lit(0)),
 		jen.For(
 			jen.Id("i := 0; i < int(size); i++"),
 		).Block(
-			jen.Id("b[i], err =").Add(l.value.Unmarshal(reader)),
+			jen.Id("v, err :=").Add(l.value.Unmarshal(reader)),
 			jen.Id(`if (err != nil) {
                 return b, fmt.Errorf("read slice value: %s", err)
             }`),
+			jen.Id("b = append(b, v)"),
 		),
 		jen.Return(jen.Id("b"), jen.Nil()),
 	).Call()
@@ -669,7 +672,8 @@ func (m *MapType) Unmarshal(reader string) *Statement {
 		jen.Id("size, err := basic.ReadUint32").Call(jen.Id(reader)),
 		jen.If(jen.Id("err != nil")).Block(
 			jen.Return(jen.Id("m"), jen.Qual("fmt", "Errorf").Call(jen.Id(`"read map size: %s", err`)))),
-		jen.Id("m").Op("=").Id("make").Call(m.TypeName(), jen.Id("size")),
+		// the size comes from the wire: no allocation hint.
+		jen.Id("m").Op("=").Id("make").Call(m.TypeName()),
 		jen.For(
 			jen.Id("i := 0; i < int(size); i++"),
 		).Block(
